@@ -949,9 +949,9 @@ type genState struct {
 	keys     []string
 	first    int // oldest retained version (0 = none)
 	latest   int
-	open0    bool
 	ver0     int // version slot 0 is at
-	views    [3]int
+	poisoned bool
+	views    [3]bool
 	handles  [3]bool
 	allowBad bool // may open fast-on handles outside the trust contract (known finding)
 }
@@ -967,16 +967,39 @@ func (g *genState) anyVer() int {
 	if g.latest == 0 {
 		return g.r.Intn(3)
 	}
-	if g.r.Chance(8) {
+	if g.r.Chance(6) {
 		return g.r.Intn(g.latest + 3)
 	}
 	lo := g.first
 	if lo < 1 {
 		lo = 1
 	}
+	if g.r.Chance(40) {
+		return g.latest
+	}
 	return g.r.Range(lo, g.latest)
 }
 func (g *genState) cache() int { return kit.Pick(g.r, []int{0, 1, 100, 10000}) }
+
+// pick prefers a live slot.
+func (g *genState) pick(live [3]bool) int {
+	if g.r.Chance(92) {
+		var c []int
+		for i, b := range live {
+			if b {
+				c = append(c, i)
+			}
+		}
+		if len(c) > 0 {
+			return kit.Pick(g.r, c)
+		}
+	}
+	return g.r.Intn(3)
+}
+
+func (g *genState) killAll() {
+	g.handles, g.views, g.poisoned = [3]bool{}, [3]bool{}, false
+}
 
 func (g *genState) openWriter() {
 	fast := 1
@@ -985,18 +1008,18 @@ func (g *genState) openWriter() {
 	}
 	mode, v := "load", 0
 	switch x := g.r.Intn(100); {
-	case x < 12 && g.latest > 0:
+	case x < 10 && g.latest > 0:
 		mode, v = "loadlv", g.anyVer()
 		if v == 0 {
 			v = 1
 		}
-	case x < 20 && (g.allowBad || fast == 0):
+	case x < 18 && (g.allowBad || fast == 0):
 		mode, v = "lv", g.anyVer()
-	case x < 24 && (g.allowBad || fast == 0):
+	case x < 22 && (g.allowBad || fast == 0):
 		mode = "ro"
 	}
 	g.w.Op("open 0 %d %s %d 0 %d", fast, mode, v, g.cache())
-	g.open0, g.handles[0] = true, true
+	g.handles[0], g.poisoned = true, false
 	g.ver0 = g.latest
 	if (mode == "lv" || mode == "loadlv") && v != 0 {
 		g.ver0 = v
@@ -1007,19 +1030,24 @@ func (g *genState) reads(n int) {
 	for ; n > 0; n-- {
 		switch x := g.r.Intn(100); {
 		case x < 35:
-			g.w.Op("get %d %s", g.r.Intn(3), g.key())
+			g.w.Op("get %d %s", g.pick(g.handles), g.key())
 		case x < 70:
-			g.w.Op("getv %d %s %d", g.r.Intn(3), g.key(), g.anyVer())
+			g.w.Op("getv %d %s %d", g.pick(g.handles), g.key(), g.anyVer())
 		default:
-			g.w.Op("vget %d %s", g.r.Intn(3), g.key())
+			g.w.Op("vget %d %s", g.pick(g.views), g.key())
 		}
 	}
 }
 
 func (g *genState) step() {
 	r, w := g.r, g.w
-	if !g.open0 {
+	if !g.handles[0] {
 		g.openWriter()
+		return
+	}
+	if g.poisoned && r.Chance(70) {
+		w.Op("rollback 0")
+		g.poisoned = false
 		return
 	}
 	switch x := r.Intn(1000); {
@@ -1031,18 +1059,18 @@ func (g *genState) step() {
 		w.Op("save 0")
 		if g.ver0 == g.latest {
 			g.latest++
+			g.ver0 = g.latest
 			if g.first == 0 {
 				g.first = g.latest
 			}
-		}
-		g.ver0++
-		if g.ver0 > g.latest {
-			g.ver0 = g.latest
+		} else {
+			g.poisoned = true // most likely "already exists with a different hash"
 		}
 		g.reads(r.Range(1, 5))
-	case x < 585:
+	case x < 580:
 		w.Op("rollback 0")
-	case x < 625:
+		g.poisoned = false
+	case x < 615:
 		g.openWriter()
 	case x < 700: // query-style handle
 		slot := r.Range(1, 2)
@@ -1057,33 +1085,37 @@ func (g *genState) step() {
 		case y < 35:
 			mode, v = "lv", g.anyVer()
 		}
-		if r.Chance(30) {
+		if r.Chance(25) {
 			skew = r.Range(1, 2)
 		}
 		w.Op("open %d %d %s %d %d %d", slot, fast, mode, v, skew, g.cache())
-	case x < 770:
-		w.Op("imm %d %d %d", r.Intn(3), r.Intn(3), g.anyVer())
-	case x < 800:
+		g.handles[slot] = true
+	case x < 780:
+		vs := r.Intn(3)
+		w.Op("imm %d %d %d", g.pick(g.handles), vs, g.anyVer())
+		g.views[vs] = true
+	case x < 810:
 		to := g.anyVer()
 		if r.Chance(60) && g.latest > 1 {
 			to = r.Range(g.first, g.latest-1)
 		}
 		w.Op("prune 0 %d", to)
-		if to >= g.first && to < g.latest && to < g.ver0 {
+		if !g.poisoned && to >= g.first && to < g.latest && to < g.ver0 {
 			g.first = to + 1
 		}
-	case x < 815:
+	case x < 825:
 		w.Op("failsave 0")
-	case x < 830:
+		g.poisoned = true
+	case x < 833:
 		w.Op("crashsave")
-		g.open0 = false
-	case x < 838:
+		g.killAll()
+	case x < 837:
 		w.Op("crashprune %d", g.anyVer())
-		g.open0 = false
-	case x < 853:
+		g.killAll()
+	case x < 847:
 		w.Op("crashopen %d %d", r.Intn(2), r.Intn(3))
-		g.open0 = false
-	case x < 880:
+		g.killAll()
+	case x < 870:
 		w.Op("dump")
 	default:
 		g.reads(1)
